@@ -985,6 +985,9 @@ func (in *Interp) expr(p *pkgInfo, env *Env, e ast.Expr) Value {
 			if _, local := env.lookup(id.Name); !local {
 				if ip, path, isPkg := in.importedPkg(p, id); isPkg {
 					if ip == nil || ip.pkg == nil {
+						if path == "path/filepath" && x.Sel.Name == "Separator" {
+							return int64(filepath.Separator)
+						}
 						// a value of a package outside the repository (io.Discard, os.Stderr): opaque
 						return &Struct{Type: "extern:" + path + "." + x.Sel.Name, F: map[string]Value{}}
 					}
@@ -1795,6 +1798,21 @@ func (in *Interp) library(name string, as []Value) []Value {
 		return []Value{filepath.Ext(strArg(as, 0, name))}
 	case "path/filepath.Dir":
 		return []Value{filepath.Dir(strArg(as, 0, name))}
+	case "path/filepath.Clean":
+		return []Value{filepath.Clean(strArg(as, 0, name))}
+	case "path/filepath.Abs":
+		// pure on absolute paths only (a relative one would depend on the working directory of the translator)
+		p := strArg(as, 0, name)
+		if !filepath.IsAbs(p) {
+			evalFail("filepath.Abs of the relative path %q", p)
+		}
+		return []Value{filepath.Clean(p), nil}
+	case "path/filepath.Rel":
+		r, err := filepath.Rel(strArg(as, 0, name), strArg(as, 1, name))
+		if err != nil {
+			return []Value{"", &ErrVal{Msg: err.Error()}}
+		}
+		return []Value{r, nil}
 	case "strconv.Itoa":
 		n, _ := as[0].(int64)
 		return []Value{strconv.Itoa(int(n))}
